@@ -4,4 +4,4 @@ From Coq Require Import Extraction ExtrOcamlBasic.
 From Pi2 Require Import MM15.Codec.
 Extraction Language OCaml.
 Extraction "mm15_model.ml" is_space lex_space decode_word encode split_steps parse_lemmas split_proof
-  import_proof tokenize proof_field mandatory import_statement classify lookup.
+  import_proof tokenize proof_field mandatory import_statement classify lookup appendixB_decode appendixB_stream.
